@@ -82,6 +82,7 @@ pub fn acceptor(v6: bool, id: usize, hits: Arc<Mutex<Vec<usize>>>) -> SocketAddr
 struct Cfg {
     addrs: Vec<(bool, char)>, // (is_v6, behaviour) in resolver order
     deadline_ms: Option<u64>, // overall timeout of the request
+    ct_ms: u64,               // connect timeout of the request (per attempt)
 }
 
 struct Obs {
@@ -107,7 +108,7 @@ fn run_cfg(cfg: &Cfg, host: &str) -> Option<Obs> {
         });
     }
     attohttpc::verif_hooks::set_resolver_override(host, addrs.clone());
-    let mut rb = attohttpc::get(format!("http://{}:1/", host)).connect_timeout(Duration::from_millis(CONNECT_TIMEOUT_MS)).read_timeout(Duration::from_secs(2)).follow_redirects(false);
+    let mut rb = attohttpc::get(format!("http://{}:1/", host)).connect_timeout(Duration::from_millis(cfg.ct_ms)).read_timeout(Duration::from_secs(2)).follow_redirects(false);
     if let Some(d) = cfg.deadline_ms {
         rb = rb.timeout(Duration::from_millis(d));
     }
@@ -203,19 +204,30 @@ pub fn generate(seed: u64, tier: &str, sink: &mut Sink) {
     if thorough {
         for a in &all {
             for d in deadlines {
-                cfgs.push(Cfg { addrs: a.clone(), deadline_ms: d });
+                cfgs.push(Cfg { addrs: a.clone(), deadline_ms: d, ct_ms: CONNECT_TIMEOUT_MS });
+            }
+            // connect timeouts shorter than the race: every attempt has its own full connect timeout
+            if a.len() >= 3 {
+                for ct in [300u64, 500] {
+                    cfgs.push(Cfg { addrs: a.clone(), deadline_ms: None, ct_ms: ct });
+                }
             }
         }
     } else {
         for _ in 0..48 {
-            cfgs.push(Cfg { addrs: rng.pick(&all).clone(), deadline_ms: *rng.pick(&deadlines) });
+            cfgs.push(Cfg { addrs: rng.pick(&all).clone(), deadline_ms: *rng.pick(&deadlines), ct_ms: CONNECT_TIMEOUT_MS });
         }
         // the cases the statement names
-        cfgs.push(Cfg { addrs: vec![(true, 'b'), (false, 'a')], deadline_ms: None });
-        cfgs.push(Cfg { addrs: vec![(false, 'a'), (true, 'b')], deadline_ms: None });
-        cfgs.push(Cfg { addrs: vec![(true, 'r'), (false, 'r')], deadline_ms: None });
-        cfgs.push(Cfg { addrs: vec![(true, 'b'), (false, 'b')], deadline_ms: None });
-        cfgs.push(Cfg { addrs: vec![(true, 'b'), (true, 'b'), (false, 'a')], deadline_ms: None });
+        cfgs.push(Cfg { addrs: vec![(true, 'b'), (false, 'a')], deadline_ms: None, ct_ms: CONNECT_TIMEOUT_MS });
+        cfgs.push(Cfg { addrs: vec![(false, 'a'), (true, 'b')], deadline_ms: None, ct_ms: CONNECT_TIMEOUT_MS });
+        cfgs.push(Cfg { addrs: vec![(true, 'r'), (false, 'r')], deadline_ms: None, ct_ms: CONNECT_TIMEOUT_MS });
+        cfgs.push(Cfg { addrs: vec![(true, 'b'), (false, 'b')], deadline_ms: None, ct_ms: CONNECT_TIMEOUT_MS });
+        cfgs.push(Cfg { addrs: vec![(true, 'b'), (true, 'b'), (false, 'a')], deadline_ms: None, ct_ms: CONNECT_TIMEOUT_MS });
+        // a connect timeout shorter than the race: a late attempt still has its full connect timeout
+        cfgs.push(Cfg { addrs: vec![(true, 'b'), (false, 'b'), (true, 'a')], deadline_ms: None, ct_ms: 300 });
+        cfgs.push(Cfg { addrs: vec![(true, 'b'), (false, 'b'), (false, 'a')], deadline_ms: None, ct_ms: 300 });
+        cfgs.push(Cfg { addrs: vec![(true, 'b'), (false, 'b'), (true, 'b'), (false, 'a')], deadline_ms: None, ct_ms: 500 });
+        cfgs.push(Cfg { addrs: vec![(true, 'r'), (false, 'b'), (true, 'b'), (false, 'a')], deadline_ms: Some(5000), ct_ms: 300 });
     }
     // run in parallel worker threads (the resolver override is thread-local)
     let nworkers = 12;
@@ -249,7 +261,7 @@ pub fn generate(seed: u64, tier: &str, sink: &mut Sink) {
     for (i, obs) in results {
         let cfg = &cfgs[i];
         let spec: Vec<String> = cfg.addrs.iter().map(|(v6, b)| format!("{}{}", if *v6 { '6' } else { '4' }, b)).collect();
-        let op = format!("happy {} {} {} {}", CONNECT_TIMEOUT_MS, cfg.deadline_ms.map(|d| d.to_string()).unwrap_or("~".into()), race_delay, if spec.is_empty() { "-".to_string() } else { spec.join(",") });
+        let op = format!("happy {} {} {} {}", cfg.ct_ms, cfg.deadline_ms.map(|d| d.to_string()).unwrap_or("~".into()), race_delay, if spec.is_empty() { "-".to_string() } else { spec.join(",") });
         let obs = match obs {
             Some(o) => o,
             None => {
@@ -308,7 +320,7 @@ pub fn generate(seed: u64, tier: &str, sink: &mut Sink) {
             // an unresponsive predecessor costs about one race interval each, not a connect timeout
             if generous && any_accept && cfg.addrs.len() > 1 {
                 let bound = race_delay * cfg.addrs.len() as u64 + 250;
-                if obs.elapsed_ms > bound.min(CONNECT_TIMEOUT_MS + 250) && obs.elapsed_ms > bound {
+                if obs.elapsed_ms > bound.min(cfg.ct_ms + 250) && obs.elapsed_ms > bound {
                     return Err(("slow-success".into(), format!("{:?}: success after {} ms (bound {})", spec, obs.elapsed_ms, bound)));
                 }
             }
